@@ -143,6 +143,17 @@ CHECKS = [
         'note': 'one-sided on layout: model-impossible-but-assembled is a violation, model-possible-but-rejected is counted '
                 '(the appended wflip area may legitimately collide); pad-hole contents are unspecified',
     },
+    {
+        'property_id': 'C15', 'level': 'exploration', 'design_ref': 'DESIGN.md 4 C15',
+        'technique': 'runtime monitoring: trace-specification checker - a debugger model layered on the reference machine is compared with the pause/read events parsed from the real debugger output',
+        'text': 'Generated images run under flipjump.debug with breakpoints by address, exact label and substring over synthetic '
+                'label tables and scripted command sessions (step, skip N, continue, continue-all, quit, EOF, reads of addresses, '
+                'labels and :bN:/:hN:/:BN:/:f:/:j: variables with indices, help, unknown and malformed lines); every printed pause '
+                '(kind, address, ops executed) and read result, the final termination, the device-side output and the memory '
+                'after the session must equal a debugger model on the reference machine, which without quit equals the '
+                'undebugged run.',
+        'note': 'the command grammar is transcribed from DEBUGGER_HELP; only the featured loop can be debugged',
+    },
 ]
 
 _TODO = 'check not built yet in this session (work in progress; see DESIGN.md for the planned monitor)'
